@@ -62,6 +62,9 @@ DIRECTED_C08 = [     # unconditional (seventh round): a root that is defined bot
     # tenth round: a scope selector deeper than the document's let layers (a negative index still names a layer)
     ('let\n  x = 1;\nin\n{\n  a = x;\n}\n', ('rm', '@@x')), ('let\n  x = 1;\nin\n{\n  a = x;\n}\n', ('set', '@@x', '2')), ('let\n  a = 1;\nin\nlet\n  b = 2;\nin\n{\n  c = a;\n}\n', ('rm', '@@@b')),
     ('let\n  a = 1;\nin\nlet\n  b = 2;\nin\n{\n  c = a;\n}\n', ('rm', '@@@@a')), ('let\n  a = 1;\nin\nlet\n  b = 2;\nin\n{\n  c = a;\n}\n', ('set', '@@@a', '3')), ('{\n  a = 1;\n}\n', ('rm', '@a')), ('{\n  a = 1;\n}\n', ('rm', '@@a')),
+    # twelfth round: the attrpath root lies one and two explicit sets down; overwriting it and removing the bare prefix are refused there as at the top
+    ('{ x = { a = { b.c = 1; }; }; }\n', ('set', 'x.a.b', '9')), ('{ x = { a = { b.c = 1; }; }; }\n', ('rm', 'x.a.b')), ('{ a = { b.c = 1; }; }\n', ('set', 'a.b', '9')), ('{ a = { b.c = 1; }; }\n', ('rm', 'a.b')),
+    ('{\n  a = {\n    n = {\n      b.c = 1;\n      k = 3;\n    };\n    m = 1;\n  };\n}\n', ('set', 'a.n.b', '9')), ('{\n  a = {\n    n = {\n      b.c = 1;\n      k = 3;\n    };\n    m = 1;\n  };\n}\n', ('rm', 'a.n.b')),
     ('{ pkgs }:\n{\n  a = {\n    x = 1;\n  };\n  a.b = 2;\n}\n', ('set', 'a', '5')), ('{ pkgs }:\n{\n  a = {\n    x = 1;\n  };\n  a.b = 2;\n}\n', ('rm', 'a')),
 ]
 def run_C08():
@@ -118,6 +121,7 @@ DIRECTED_TREE_DOCS = [      # eighth round: attrpath families that share a prefi
     '{\n  a.c.d = 1;\n  e = 3;\n}\n', '{\n  a.b.c.x = 1;\n  e = 3;\n}\n',
     '{ config, pkgs, ... }:\n{\n  services.nginx.enable = true; # keep on\n  services.proxy.port = 80;\n}\n',
     # tenth round: comments in the places a binding keeps them — between the value and the `;`, after the `;`, above the binding — and edits of OTHER bindings, repeated on one object
+    '{\n  meta = {\n    a.b = 1;\n    a.c = 2;\n  };\n}\n', '{\n  a.b = 1;\n  a.c = 2;\n  d = 3;\n}\n',      # twelfth round: a family one explicit set down with two leaves (the root survives an rm); a family next to a plain binding, edited several times on one object
     # eleventh round: an attrpath family that lies two explicit sets down, and one that lies one explicit set and one attrpath segment down
     '{\n  x = {\n    a = {\n      b.c = 1;\n      b.d = 2;\n    };\n  };\n}\n', '{ x = { a = { b.c = 1; }; }; }\n', '{\n  x.y = {\n    a = {\n      b.c = 1;\n    };\n    k = 0;\n  };\n}\n',
     '{\n  a = 1\n  # why\n  ;\n  b = 2;\n}\n', '{\n  a = 1 /* v */; # t\n  b = 2;\n  # end\n}\n', '{ pkgs }:\n{\n  a = 1\n  # why\n  ;\n  b = 2; # two\n}\n', 'f {\n  a = 1\n  # why\n  ;\n  b = 2;\n}\n',
@@ -137,6 +141,10 @@ def directed_tree_jobs():
         for sc in ([('set', 'a', '2')], [('rm', 'keep')], [('set', 'b.c', '2'), ('set', 'a', '"x"'), ('rm', 'keep')]): yield text, sc
     for text in DIRECTED_TREE_DOCS:
         tree, _ = read_tree(text)
+        ks_ = [pstr(k) for k in tree]
+        if len(ks_) >= 2 and '#' not in text and '/*' not in text:         # twelfth round (documents with comments keep to the single-edit scripts: a comment between a value and its `;` is re-homed by the first rendering, F-03): one object, an edit of one leaf, then of another, then a removal (what a first rendering leaves behind must not confuse the second edit)
+            yield text, [('set', ks_[-1], '4'), ('set', ks_[0], '5'), ('rm', ks_[1]), ('set', ks_[0], '6')]
+            yield text, [('set', ks_[0], '5'), ('set', ks_[0], '6'), ('rm', ks_[-1])]
         for k in tree:
             ks = pstr(k)
             yield text, [('set', ks, '7')]
@@ -226,6 +234,7 @@ def run_tree(check):
                         root_exists = any(k[:1] == p[:1] for k in tree0)
                         if not root_exists: bad('new binding is not placed last', out=out, **case)
             if check == 'C04':
+                if d1 and not d0: bad('the edit left a second definition of a path beside the first: %r' % (d1,), out=out, **case)
                 keep0 = {k: v for k, v in tree0.items() if k[:len(p)] != p and not (k == p[:len(k)])}
                 keep1 = {k: v for k, v in tree1.items() if k[:len(p)] != p and not (k == p[:len(k)])}
                 if keep0 != keep1: bad('a binding outside the addressed one changed', out=out, before=sorted(map(str, keep0.items())), after=sorted(map(str, keep1.items())), **case)
@@ -277,9 +286,92 @@ def run_scoped_frame():
             cur = out
         if len(samples) < 3: samples.append({'doc': text, 'ops': ops})
 
+# =================================================================================== C05, scoped edits: exact change of the layers (twelfth round)
+def run_scoped_exact():
+    """every layer of one-, two- and three-layer documents, every name: rm, set of the existing name, set of a fresh name, then the same on the result —
+    the layers read back by the independent reader are exactly the requested change (an emptied layer disappears, and only that one), the body keeps its tree"""
+    from edit_lib import read_layers
+    DOCS = ['let\n  a = 1;\nin\nlet\n  b = 2;\nin\n{\n  c = b;\n}\n', 'let\n  a = 1;\n  z = 0;\nin\nlet\n  b = 2;\nin\n{\n  c = b;\n}\n',
+            'let\n  a = 1;\nin\nlet\n  b = 2;\nin\nlet\n  c = 3;\nin\n{\n  d = c;\n}\n', 'let\n  a = 1;\nin\nlet\n  b = 2;\n  y = 0;\nin\nlet\n  c = 3;\nin\n{\n  d = c;\n}\n',
+            'let\n  a = 1;\nin\n{\n  c = a;\n}\n', '{ pkgs }:\nlet\n  a = 1;\nin\nlet\n  b = 2;\nin\n{\n  c = b;\n}\n']
+    def expect(layers, op):
+        depth = len(op[1]) - len(op[1].lstrip('@')); name = op[1].lstrip('@'); L = [dict(x) for x in layers]
+        if op[0] == 'set' and depth == 1 and not L: return [{name: op[2]}]          # `set @name` on a document without a let wraps it in one
+        if depth > len(L): return None
+        i = len(L) - depth
+        if op[0] == 'rm':
+            if name not in L[i]: return None
+            del L[i][name]
+            if not L[i]: del L[i]
+        else: L[i][name] = op[2]
+        return L
+    def step(cur, op, hist):
+        lay0 = read_layers(cur); tr0 = read_tree(cur); exp = expect(lay0, op); res = apply(parse(cur), op); count('scoped-exact/%s/%s' % (op[0], 'ok' if res[0] == 'ok' else 'refused'))
+        if exp is None:
+            if res[0] == 'ok': bad('a scoped edit that names a missing layer or a missing name is accepted', doc=hist[0], ops=hist[1] + [list(op)], out=res[1])
+            return None
+        if res[0] != 'ok': bad('well-formed scoped edit refused: %s' % (res[1:],), doc=hist[0], ops=hist[1] + [list(op)]); return None
+        lay1 = read_layers(res[1]); tr1 = read_tree(res[1])
+        if lay1 is None or tr1 is None: bad('emitted text does not parse', doc=hist[0], ops=hist[1] + [list(op)], out=res[1]); return None
+        if [sorted(x.items()) for x in lay1] != [sorted(x.items()) for x in exp] or tr1 != tr0:
+            bad('let layers after a scoped edit are not the requested change', doc=hist[0], ops=hist[1] + [list(op)], out=res[1], expected=[sorted(x.items()) for x in exp], got=[sorted(x.items()) for x in lay1])
+            return None
+        return res[1]
+    for text in DOCS:
+        lay = read_layers(text)
+        if lay is None or parse(text).rebuild() != text: bad('harness: directed scoped document not readable or not canonical', doc=text); continue
+        firsts = []
+        for depth in range(1, len(lay) + 2):
+            names = sorted(lay[len(lay) - depth]) if depth <= len(lay) else ['a']
+            for nm in names + ['fresh']:
+                firsts += [('rm', '@' * depth + nm), ('set', '@' * depth + nm, '9')]
+        for op in firsts:
+            cur = step(text, op, (text, []))
+            if cur is None: continue
+            for op2 in firsts:
+                step(cur, op2, (text, [list(op)]))
 # =================================================================================== C09
+ML_VALUES = ['[\n"x86_64-linux"\n"aarch64-linux"\n]', '{\n  k = 1;\n  j = 2;\n}', "''\n  line\n''", 'assert x; y', 'let\n  c = 1;\nin\nc', 'x:\nx']
+def multiline_values():
+    """twelfth round (C06): a value that spans lines written into a one-line set — as the only binding, as a second binding, into an empty set —
+    in every inline position a set can stand in; and one-line sets whose lone value rebuilds over several lines, without any edit"""
+    HOSTS = [('{\n  pname = "x";\n  meta = { };\n}\n', 'meta.platforms'), ('{ pkgs }: { packages = [ ]; }\n', 'packages'), ('pkgs.mkShell { packages = [ ]; }\n', 'packages'), ('{\n  m = { x = 1; };\n}\n', 'm.y'),
+             ('{\n  m = { x = 1; };\n}\n', 'm.x'), ('{ a = 1; }\n', 'a'), ('{ a = 1; }\n', 'b'), ('f { a = 1; } { b = 2; }\n', 'b'), ('{\n  l = [ { a = 1; } ];\n  v = { };\n}\n', 'v.w'), ('x: { a = 1; }\n', 'a'), ('with p; { a = 1; }\n', 'a')]
+    for text, pth in HOSTS:
+        for v in ML_VALUES:
+            count('multiline-value'); r = apply(parse(text), ('set', pth, v))
+            if r[0] != 'ok': continue
+            again = parse(r[1]).rebuild()
+            if again != r[1]: bad('text emitted by a successful edit is not a fixed point of parse/rebuild', doc=text, ops=[['set', pth, v]], out=r[1], again=again)
+    for text in ['{ a = { b = assert x; y; }; }\n', 'f { b = assert x; y; }\n', '{ a = { b = let c = 1; in c; }; }\n', 'x: { b = assert x; y; }\n', '{ a = [ { b = assert x; y; } ]; }\n', '{ a = { b = x: assert x; y; }; }\n',
+                 '{ a = { b = with p; assert x; y; }; }\n', 'f { b = let c = 1; in c; } z\n', '{ a = { b = [\n  1\n]; }; }\n', "{ a = { b = ''\n  s\n''; }; }\n"]:
+        count('multiline-lone-value')
+        try: r1 = parse(text).rebuild(); r2 = parse(r1).rebuild()
+        except Exception as ex: bad('parse/rebuild raises %s' % type(ex).__name__, doc=text); continue
+        if r1 != r2: bad('rebuilt text is not a fixed point', doc=text, once=r1, twice=r2)
+def session_core():
+    """twelfth round: scripts applied to ONE document object against the same scripts with a fresh parse of the text between the steps — a layer or a
+    nested set created earlier in the session (by a dotted scoped path, a nested plain path) must behave like one that was parsed"""
+    from edit_lib import read_layers
+    SCRIPTS = [[('set', '@cfg.a', '1'), ('set', '@b', '2'), ('set', '@cfg.c', '3'), ('rm', '@b')], [('set', '@b', '2'), ('set', '@cfg.a', '1'), ('rm', '@cfg.a')],
+               [('set', '@cfg.a.b', '1'), ('set', '@cfg.a.c', '2'), ('set', '@d', '3'), ('rm', '@cfg.a.b')], [('set', '@m', '{ }'), ('set', '@m.k', '1'), ('set', '@n', '2'), ('rm', '@m.k')],
+               [('set', 'p.q', '1'), ('set', 'r', '2'), ('set', 'p.s', '3'), ('rm', 'r')], [('set', '@b', '2'), ('rm', '@b'), ('set', '@cfg.a', '1'), ('set', '@e', '4')]]
+    DOCS = ['{\n  x = 1;\n}\n', '{ pkgs }:\n{\n  x = 1;\n}\n', 'with pkgs;\n{\n  x = 1;\n}\n', 'mk ({\n  x = 1;\n})\n', 'let\n  k = 0;\nin\n{\n  x = k;\n}\n', 'let\n  k = 0;\nin\nlet\n  j = 1;\nin\n{\n  x = k;\n}\n']
+    for text in DOCS:
+        for sc in SCRIPTS:
+            one = parse(text); cur = text; done = []
+            for op in sc:
+                count('session-core'); done.append(list(op))
+                r_one = apply(one, op); r_fresh = apply(parse(cur), op)
+                shape_ = lambda t_: (read_layers(t_), read_tree(t_))          # layers and body as the independent reader sees them; layout is not compared (it may differ after an unwrap)
+                if r_one[0] != r_fresh[0] or (r_one[0] == 'ok' and shape_(r_one[1]) != shape_(r_fresh[1])):
+                    bad('an edit on the document object of earlier edits differs from the same edit on a fresh parse of their text', doc=text, ops=done, same_object=r_one[1] if r_one[0] == 'ok' else r_one, fresh_parse=r_fresh[1] if r_fresh[0] == 'ok' else r_fresh); break
+                if r_fresh[0] != 'ok': break
+                if read_layers(r_fresh[1]) is None: bad('emitted text does not parse', doc=text, ops=done, out=r_fresh[1]); break
+                cur = r_fresh[1]
 def run_C09():
     import copy
+    session_core()
     for it in range(N):
         shape = R.choice(['bare', 'lambda_formals', 'lambda_id', 'paren', 'assert_blank', 'assert_comment', 'lambda_assert_blank'])      # eleventh round: trivia between `assert c;` and the let
         n = R.randrange(0, 4); layers = gen_layers(R, n)
@@ -485,6 +577,6 @@ def run_C19():
             bad('law check crashed: %s %s' % (type(e).__name__, e), doc=text)
         if len(samples) < 2: samples.append({'doc': text, 'law': law})
 
-{'C08': run_C08, 'C05': lambda: run_tree('C05'), 'C04': lambda: (run_tree('C04'), run_scoped_frame()), 'C06': lambda: run_tree('C06'), 'C09': run_C09, 'C19': run_C19}[prop]()
+{'C08': run_C08, 'C05': lambda: (run_tree('C05'), run_scoped_exact()), 'C04': lambda: (run_tree('C04'), run_scoped_frame()), 'C06': lambda: (run_tree('C06'), multiline_values()), 'C09': run_C09, 'C19': run_C19}[prop]()
 print(json.dumps({'evaluations': sum(dist.values()), 'distinct': len(dist), 'distribution': dist, 'violations': viol[:6], 'n_violations': len(viol),
                   'known_hits': known, 'samples': samples}, default=str))
